@@ -87,6 +87,8 @@ func init() {
 		func(p *Prog, r *Report) { ruleFoldTotal(p, r, []string{"mxj.xmlToMapParser"}) },
 		func(p *Prog, r *Report) { ruleTextNonEmpty(p, r, []string{"mxj.xmlToMapParser"}) },
 		func(p *Prog, r *Report) { ruleTextTrimSet(p, r, []string{"mxj.xmlToMapParser"}) },
+		ruleTableTrimSet,
+		func(p *Prog, r *Report) { ruleFoldWhole(p, r, []string{"mxj.xmlToMapParser"}) },
 		func(p *Prog, r *Report) { ruleCastOpaque(p, r, []string{"mxj.xmlToMapParser"}) },
 		panicRules(grpMapDecode))
 
@@ -94,7 +96,7 @@ func init() {
 		"Structural agreement of decoder and encoder conventions: TABLE.keys (both halves read the shared key variables), FOLD.total (the decoder's snake-case folding replaces every hyphen, so it is idempotent: the names the encoder writes decode to themselves), PAIR.derived (lenAttrPrefix tracks attrPrefix), TABLE.partition (attribute / text / element partition of a map's keys is the same predicate in both scans), ESC.flow (every Map value reaches the output escaped unless xmlEscapeChars is known false), TABLE.escape (entity table, order, no unescaped early return), ORDER (sorted emission), WALK.arms (every list member and collected child is encoded), TAGS.protocol (path-sensitive typestate of the Map element encoder: on every path feasible for a decoder-shaped value the buffer writes follow start tag, attributes, close, content, end tag / self-close; start and end tag name the same parameter; no successful return leaves an open element), ROOT.single (each encoder passes exactly one call of the element encoder on every path that returns a document; the call on the receiver's single entry is guarded by len == 1), TAGS.content (on no path is the element completed while its text entry or scalar value — string, number or boolean, as float/bool casting produces — has not been written). Not decided: equality of the second decode with the first; well-formedness of names and of the sequence encoder's output. ROOT.ownkey (in the single-member case the whole Map is wrapped in the default root only for a list member)."+levelNote,
 		nil,
 		ruleTagProtocol, func(p *Prog, r *Report) { ruleTagContent(p, r, "map") }, ruleTableKeys, ruleRootSingle, ruleRootOwnKey,
-		ruleInflCover, ruleTableNanInf,
+		ruleInflCover, ruleTableNanInf, ruleTableTrimSet,
 		func(p *Prog, r *Report) { ruleElemAlways(p, r, []string{"mxj.marshalMapToXmlIndent"}) },
 		func(p *Prog, r *Report) { ruleTextNonEmpty(p, r, []string{"mxj.xmlToMapParser"}) },
 		func(p *Prog, r *Report) { ruleCastOpaque(p, r, []string{"mxj.xmlToMapParser"}) },
@@ -112,7 +114,7 @@ func init() {
 			ruleOwnPrivate(p, r, []string{"mxj.Map.Xml", "mxj.Map.XmlIndent", "mxj.AnyXml", "mxj.AnyXmlIndent"})
 		},
 		func(p *Prog, r *Report) { ruleWalkArms(p, r, []string{"mxj.marshalMapToXmlIndent"}) },
-		ruleAnyXmlList, ruleAnyXmlNilOnly, ruleTablePartition, ruleEsc, ruleTableEscape, ruleValidCoupling,
+		ruleAnyXmlList, ruleAnyXmlNilOnly, ruleTablePartition, ruleEsc, ruleTableEscape, ruleValidCoupling, ruleOptExcl,
 		func(p *Prog, r *Report) { ruleElemAlways(p, r, []string{"mxj.marshalMapToXmlIndent"}) },
 		func(p *Prog, r *Report) {
 			ruleErr(p, r, []string{"mxj.Map.Xml", "mxj.Map.XmlIndent", "mxj.AnyXml", "mxj.AnyXmlIndent"}, "Map encoders and AnyXml")
@@ -170,6 +172,7 @@ func init() {
 		nil,
 		func(p *Prog, r *Report) { rulePairCount(p, r, []string{"mxj.Map.oldValuesForPath"}) },
 		func(p *Prog, r *Report) { ruleIterFresh(p, r, []string{"mxj.parsePath"}) },
+		func(p *Prog, r *Report) { ruleWalkLiteralKeys(p, r, []string{"mxj.valuesForKeyPath"}) },
 		func(p *Prog, r *Report) { rulePathVerbatim(p, r, "mxj.parsePath") },
 		func(p *Prog, r *Report) {
 			in := map[string]bool{}
@@ -251,7 +254,7 @@ func init() {
 		},
 		ruleWalkLeaf,
 		func(p *Prog, r *Report) { ruleLeafPath(p, r, "mxj.getLeafNodes") },
-		ruleLeafAttrFilter,
+		ruleLeafAttrFilter, rulePredLocal,
 		func(p *Prog, r *Report) { ruleIterFresh(p, r, []string{"mxj.parsePath"}) },
 		func(p *Prog, r *Report) { rulePairCount(p, r, []string{"mxj.Map.oldValuesForPath"}) },
 		func(p *Prog, r *Report) { rulePathVerbatim(p, r, "mxj.parsePath") },
@@ -308,7 +311,7 @@ func init() {
 	register("C11",
 		"Structural clauses of SetValueForPath / Remove / RenameKey: PAIR.atomic (exactly the documented writes, none in a loop, no error return reachable after a write, the renamed value moved unchanged then the old key deleted on the same parent, collision test is a presence test), WALK.progress for the parent walker (parent returned by position, recursion on the rest of the path; a value that is not a map ends the walk with an error), PATH.segments (the path is taken apart at its last separator: the deleted / moved key is the last segment, the sibling that forbids a rename is looked up under the path without its last segment), PANIC.assert/idx/nil, PRESENCE.commaok. Not decided: the frame condition as a whole; refusal to overwrite at top level (a string-value fact)."+levelNote,
 		nil,
-		rulePairAtomic, ruleWalkParent, rulePathSegments, ruleParentNotQueried,
+		rulePairAtomic, ruleWalkParent, ruleSetValueIndependent, rulePathSegments, ruleParentNotQueried,
 		func(p *Prog, r *Report) {
 			in := map[string]bool{}
 			for _, f := range p.scopeFuncs(r, "PRESENCE.commaok", grpMutators[:3]) {
@@ -322,7 +325,7 @@ func init() {
 		"Structural clauses of NewMap: EFFECT.recv (no write instruction reachable from NewMap can target memory reachable from the receiver, for every list of pairs), ERR.path, PANIC.* on the projection code. Not decided: exact content of the projection."+levelNote,
 		nil,
 		func(p *Prog, r *Report) { ruleEffectRecv(p, r, p.named("mxj.Map.NewMap"), "EFFECT.recv") },
-		func(p *Prog, r *Report) { ruleErr(p, r, []string{"mxj.Map.NewMap"}, "NewMap") },
+		func(p *Prog, r *Report) { ruleErr(p, r, []string{"mxj.Map.NewMap", "j2x.JsonNewJson"}, "NewMap") },
 		ruleNewMapArgs, ruleCopyNonNil,
 		panicRules(grpProject))
 
@@ -345,7 +348,7 @@ func init() {
 		},
 		ruleWrapFileLoop,
 		func(p *Prog, r *Report) {
-			rulePanicNil(p, r, p.named("mxj.NewMapJsonReader", "mxj.NewMapJsonReaderRaw", "mxj.getJson", "mxj.NewMapXmlReader", "mxj.NewMapXmlReaderRaw", "mxj.NewMapXmlSeqReader", "mxj.NewMapXmlSeqReaderRaw"))
+			rulePanicNil(p, r, p.scopeFuncs(r, "PANIC.nil", []string{"mxj.NewMapJsonReader", "mxj.NewMapJsonReaderRaw", "mxj.NewMapXmlReader", "mxj.NewMapXmlReaderRaw", "mxj.NewMapXmlSeqReader", "mxj.NewMapXmlSeqReaderRaw"}))
 		},
 		func(p *Prog, r *Report) {
 			ruleErr(p, r, concat([]string{"mxj.NewMapXmlReader", "mxj.NewMapXmlReaderRaw", "mxj.NewMapXmlSeqReader", "mxj.NewMapXmlSeqReaderRaw", "mxj.NewMapJsonReader", "mxj.NewMapJsonReaderRaw",
@@ -364,6 +367,7 @@ func init() {
 		"Panic-obligation discharge over every core function reachable from the decoders, the string-argument APIs and the encoders: PANIC.idx (every index/slice operation is either proven in range by the Go compiler's prove pass or discharged by the zone analysis / a structural rule), PANIC.assert (every single-value type assertion has an operand whose dynamic type set is within the asserted type), PANIC.nil (nil map writes, nil dereferences of module results, method calls on nil errors, calls of nil function variables), PANIC.explicit, PANIC.overflow (an index or slice bound x + c is computed only where x is bounded above, so the zone analysis' mathematical integers are sound), PANIC.compare (== between two interface values only where one operand can hold comparable types only), WALK.reentry (a walker that calls itself with the same node does so only with a segment tested different from the one that triggered the call: no unbounded recursion on a key named like the wildcard), and ERR.path on the decoders. Not decided: stack exhaustion on deeply nested input, panics inside the standard library on well-typed arguments, termination of the bulk handlers, 'fails exactly when the tokenizer rejects'."+levelNote,
 		nil,
 		panicRules(c15Roots()),
+		ruleOptSetterFor([]string{"mxj.defaultArraySize"}),
 		func(p *Prog, r *Report) { ruleWalkReentry(p, r, p.scopeFuncs(r, "WALK.reentry", c15Roots())) },
 		ruleJsonDecoderFor([]string{"mxj.NewMapJson", "mxj.NewMapJsonReader", "mxj.NewMapJsonReaderRaw", "mxj.HandleJsonReader", "mxj.HandleJsonReaderRaw", "mxj.NewMapsFromJsonFile", "mxj.NewMapsFromJsonFileRaw"}),
 		func(p *Prog, r *Report) {
@@ -375,7 +379,7 @@ func init() {
 		nil,
 		func(p *Prog, r *Report) { ruleOrder(p, r, encoderRoots()) },
 		func(p *Prog, r *Report) { ruleNondet(p, r, encoderRoots()) },
-		ruleWrapWriter, ruleWrapConcat, ruleInflIndent, ruleValidCoupling, ruleSeqTypes, ruleJsonNoMarshal,
+		ruleWrapWriter, ruleWrapConcat, ruleInflIndent, ruleValidCoupling, ruleSeqTypes, ruleJsonNoMarshal, ruleRootSingle, ruleRootOwnKey,
 		func(p *Prog, r *Report) {
 			ruleFwdNames(p, r, func(n string) bool { return hasPrefixAny(n, "mxj.Maps.", "mxj.Map.", "mxj.MapSeq.", "mxj.AnyXml", "mxj.BeautifyXml") })
 		},
@@ -393,12 +397,12 @@ func init() {
 		func(p *Prog, r *Report) { ruleEffectRecv(p, r, p.readOnlyMethods(), "EFFECT.recv") },
 		ruleEffectGlobal, ruleEffectInput,
 		func(p *Prog, r *Report) { ruleOwnFresh(p, r, "mxj.Map.Copy") },
-		ruleOptWriters)
+		ruleOptWriters, ruleOptCallers)
 
 	register("C18",
 		"Structural necessary conditions of 'options have only their documented effect and can be restored', decided for every call history: OPT.writers (each package variable is stored only by init and its named setter: no hidden state survives a reset), OPT.setter (per setter and argument-count class {0,1,>=2}, every CFG path stores the documented value: toggle / explicit / unchanged; explicit stores do not depend on the old value), OPT.excl (encoder- and decoder-side escaping never both on at a setter exit), OPT.dead (every option is read by some non-setter), PAIR.derived (lenAttrPrefix and trimRunes are recomputed with their master variable), OPT.scope (API groups never load options documented not to affect them), INFL.castflag (cast options are read only under the cast flag). Not decided: behavioural equality with a fresh process; restorability of SetGlobalKeyMapPrefix for arbitrary prefix characters."+levelNote,
 		[]string{"option documentation transcribed in tables.go/rules_opt.go"},
-		ruleOptWriters, ruleOptSetter, ruleSeqCastTag, ruleOptExcl, func(p *Prog, r *Report) { ruleOptDead(p, r, "mxj") }, rulePairDerived,
+		ruleOptWriters, ruleOptSetter, ruleSeqCastTag, ruleOptExcl, func(p *Prog, r *Report) { ruleOptDead(p, r, "mxj") }, rulePairDerived, ruleOptCallers, ruleTableTrimSet,
 		func(p *Prog, r *Report) { ruleOptScope(p, r) }, ruleInflCastFlag)
 
 	register("C19",
@@ -434,6 +438,7 @@ func init() {
 			ruleFwdPure(p, r, "x2jw.ValuesFromKeyPath", "x2jw.valuesFromKeyPath")
 			ruleFwdPure(p, r, "x2jw.ValuesAtKeyPath", "x2jw.valuesFromKeyPath")
 		},
+		func(p *Prog, r *Report) { ruleFwdCastFlag(p, r, "x2jw", "x2j") },
 		ruleOptWriters,
 		func(p *Prog, r *Report) { ruleScanComplete(p, r, p.PkgFuncs("x2jw")) },
 		func(p *Prog, r *Report) { ruleResultOwnArray(p, r, []string{"x2jw.valuesFromKeyPath"}) },
